@@ -846,6 +846,8 @@ func eqnil(t types.Type, x, y value) value {
 			}
 		case *closure:
 			return (x != nil) == (y.(*ssa.Function) != nil)
+		case *nativeFn:
+			return false // compared with nil
 		case []value:
 			return (x != nil) == (y.([]value) != nil)
 		}
